@@ -230,6 +230,12 @@ def decodeVideo (tag : Bytes) : Res VideoFrame :=
 def toHz (v : UInt8) : Res Nat := Gen.Flv.AudioSamplingRate_ToHz v.toNat
 def opusToHz (v : UInt8) : Res Nat := Gen.Flv.AudioSamplingRate_OpusToHz v.toNat
 
+/-- `(*AudioSamplingRate).From(aac.SampleRateIndex)`, `(*AudioSamplingRate).OpusFrom(…)`,
+`(*AudioChannels).From(aac.Channels)`: the value stored in the receiver (generated switch tables). -/
+def samplingRateFrom (a : UInt8) : Nat := Gen.Flv.AudioSamplingRate_From a.toNat
+def samplingRateOpusFrom (a : UInt8) : Nat := Gen.Flv.AudioSamplingRate_OpusFrom a.toNat
+def channelsFrom (a : UInt8) : Nat := Gen.Flv.AudioChannels_From a.toNat
+
 /-- `AudioFrameTrait.String()` — listed in `Gen.Flv.untranslatedHelpers`, so modelled by hand:
 flag names joined by `|` for `1 < v < 0xff`, else the AAC names. -/
 def audioTraitString (v : UInt8) : String :=
